@@ -38,9 +38,8 @@ func forCases(prop, tier string, seed uint64) []Case {
 	for rep := 0; rep < n; rep++ {
 		for _, f := range []string{"ustar", "pax", "gnu"} {
 			for _, root := range []string{"./", "/", "top/"} {
-				// padding after the trailer as tar's blocking factor produces it; only zero-block counts of 2 (mod 4) here, the others are the
-				// witness of open finding zero-padding-parity
-				p := forP{Format: f, Root: root, RS: []int{1, 20, 64}[(rep+i)%3], Pad: []int{0, 4, 16}[(rep+i/3)%3]}
+				// padding after the trailer as tar's blocking factor produces it (any number of zero blocks up to one tar record)
+				p := forP{Format: f, Root: root, RS: []int{1, 20, 64}[(rep+i)%3], Pad: []int{0, 1, 2, 3, 5, 17, 18}[(rep*3+i/3)%7]}
 				pb, _ := json.Marshal(p)
 				cases = append(cases, Case{ID: fmt.Sprintf("c17-%04d-%s-%s", i, f, strings.ReplaceAll(root, "/", "_")), Seed: subSeed(seed, prop, tier, fmt.Sprint(i)), Kind: "random", P: pb})
 				i++
@@ -50,7 +49,7 @@ func forCases(prop, tier string, seed uint64) []Case {
 	pb, _ := json.Marshal(forP{Format: "pax", Root: "./", RS: 20, Witness: "chmod-foreign-member"})
 	cases = append(cases, Case{ID: "c17-witness-chmod-foreign-member", Seed: 5, Kind: "witness:chmod-foreign-member", P: pb})
 	pb, _ = json.Marshal(forP{Format: "gnu", Root: "/", RS: 20, Pad: 17, Witness: "odd-padding"})
-	cases = append(cases, Case{ID: "c17-witness-odd-padding", Seed: subSeed(1, "C17", "quick", "34"), Kind: "witness:odd-padding", P: pb})
+	cases = append(cases, Case{ID: "c17-regress-odd-padding", Seed: subSeed(1, "C17", "quick", "34"), Kind: "random", P: pb})
 	return cases
 }
 
@@ -371,5 +370,5 @@ func init() {
 	register(&Engine{Name: "foreign", Props: []string{"C17"}, Cases: forCases, Run: forRun})
 	propMeta["C17"] = PropMeta{Level: "exploration",
 		Rule:        "per case a generated tree (depth <= 4, names with spaces, non-ASCII, '_' and '%', one 124-byte component for PAX/GNU, sizes 0..40000) is written by archive/tar in USTAR, PAX or GNU format with members named under './', '/' or 'top/' and a top-level directory entry (optionally followed by blocking-factor padding), opened through the documented composition (Initialize + NewCacheFilesystem) with record size 1, 20 or 64; every member must be listed under its directory and read back byte-identical, three spellings of up to 12 paths must agree, 5-10 entries added through the filesystem must coexist with the members live and after a rebuild from the tape, and Initialize must not change the archive; non-trivial = at least 3 members; distinct = distinct archive bytes",
-		Assumptions: []string{"attribute changes on original members are exercised only by the witness of open finding chmod-foreign-member"}}
+		Assumptions: []string{"the archive is written by archive/tar; blocking-factor padding as GNU tar produces it is imitated by appending zero blocks"}}
 }
